@@ -4,8 +4,10 @@ Technique: ``CertStore.get_cert`` / ``add_cert`` (and whatever they call: ``expi
 module-level helpers) are *interpreted from their AST* by the general interpreter ``mitmlint/pyint.py`` on an abstract store: ``self`` is a
 record bound to the repository class whose ``certs`` / ``expire_queue`` are ordinary containers (initial value: what ``__init__`` assigns,
 evaluated), entries are records of ``CertStoreEntry`` compared by identity, ``cryptography.x509`` is a stand-in offering the general-name
-classes only, ``logging`` / ``warnings`` are null objects, ``dummy_cert`` / ``_fix_legacy_sans`` are stubs that record their arguments
-(bound by parameter name) - so the shape of the code (loops vs comprehensions vs ``next(filter(...))``, ``if`` vs ``match``, early returns,
+classes only, ``logging`` / ``warnings`` are null objects, ``dummy_cert`` is a stub that records its arguments (bound by parameter name; the
+CN the generated certificate carries is what the repository's ``Cert.cn`` reads back from the certificate the *interpreted* ``dummy_cert``
+builds against a recording model of the x509 builder - ``cert_cn_of``), the SAN normaliser (today ``_fix_legacy_sans``) is interpreted
+like everything else, whatever it is called - so the shape of the code (loops vs comprehensions vs ``next(filter(...))``, ``if`` vs ``match``, early returns,
 extracted helpers, logging, assertions, annotations) does not matter, only what it computes.  The reachable state space over a small
 universe of requests and custom registrations is explored exhaustively (all histories, any length, capacity 1..2 substituted for every read
 of ``STORE_CAP`` and of module constants it is a plain alias of).  On every transition the observable result is compared with the property:
@@ -33,16 +35,12 @@ from ..core import norm
 from ..model import attr_chain
 from ..model import call_name
 from ..model import enclosing_func
-from ..model import last_attr
-from ..model import walk_in_order
 from ..pyint import ClassRef
 from ..pyint import Interp
 from ..pyint import Raised
 from ..pyint import Rec
 from ..pyint import _Return
 from ..selftest import Mutant
-from ._helpers_B import ceval
-from ._helpers_B import NotAnAtom
 
 PROP = "C17"
 REG = {
@@ -350,7 +348,7 @@ def _trusted():
 
     log = _NullLog()
     return {"cryptography.x509": _X509Stub(), "cryptography": types.SimpleNamespace(x509=_X509Stub()), "logging": log, "warnings": log,
-            "collections": collections, "ipaddress": ipaddress, "itertools": __import__("itertools")}
+            "collections": collections, "ipaddress": ipaddress, "itertools": __import__("itertools"), "threading": __import__("threading")}
 
 
 def _bind_call(fn, args, kwargs, what):
@@ -395,17 +393,46 @@ class Machine:
                 raise AnalysisError(f"dummy_cert called with sans = {sans!r} (not general names)")
             return CertRec(cert_cn_of(ctx, a["commonname"]), tuple(sans), gen_args=(a["commonname"], Names(sans)))
 
-        def fix_legacy_sans(sans):
-            return Names(sans)
-
         it.overrides[(F, "dummy_cert")] = dummy_cert
-        it.overrides[(F, "_fix_legacy_sans")] = fix_legacy_sans
         for nm in _cap_aliases(ctx):
             it.overrides[(F, nm)] = cap
         if len(cls._interps) > 8:
             cls._interps.clear()
         cls._interps[key] = (ctx.model, it)
         return it
+
+    _extras: dict = {}
+    extra_written: dict = {}  # id(model) -> (model, names of extra attributes an explored operation changed)
+
+    @classmethod
+    def extra_attrs(cls, ctx, known):
+        """Instance attributes ``CertStore.__init__`` sets besides the modelled ones from an expression that does not depend on its
+        arguments (a lock, a counter, a constant ...): evaluated once per program.  What cannot be evaluated stays absent - reading it
+        is then an AnalysisError of the interpretation, never a guess."""
+        hit = cls._extras.get("model")
+        if hit is not None and hit[0] is ctx.model:
+            return hit[1]
+        out = {}
+        init = ctx.model.method(F, "CertStore", "__init__")
+        if init is not None:
+            mod, fn = init
+            a = fn.args
+            params = {p.arg for p in a.posonlyargs + a.args + a.kwonlyargs} | {x.arg for x in (a.vararg, a.kwarg) if x is not None}
+            it = Interp(ctx.model, trusted_modules=_trusted())
+            for n in ast.walk(fn):
+                tv = [(t, n.value) for t in n.targets] if isinstance(n, ast.Assign) else [(n.target, n.value)] if isinstance(n, ast.AnnAssign) and n.value is not None else []
+                for t, v in tv:
+                    ch = attr_chain(t)
+                    if not ch.startswith("self.") or ch.count(".") != 1 or ch[5:] in known or ch[5:] in out:
+                        continue
+                    if any(isinstance(x, ast.Name) and x.id in params for x in ast.walk(v)):
+                        continue
+                    try:
+                        out[ch[5:]] = it.ev(v, {}, mod, 0)
+                    except (AnalysisError, Raised):
+                        pass
+        cls._extras["model"] = (ctx.model, out)
+        return out
 
     def __init__(self, ctx, store):
         import types
@@ -415,6 +442,9 @@ class Machine:
         self.rec = Rec("CertStore", _impl=(F, "CertStore"), certs=store.certs, expire_queue=store.queue, default_privatekey=OPAQUE_KEY,
                        default_ca=types.SimpleNamespace(_cert=OPAQUE_CA), default_chain_file=None, default_chain_certs=[],
                        default_crl=b"", dhparams=b"")
+        self.extras = self.extra_attrs(ctx, self.rec.__dict__)
+        for k, v in self.extras.items():
+            object.__setattr__(self.rec, k, type(v)(v) if type(v) in (list, dict, set, bytearray) else v)  # (every transition starts from the pristine value)
 
     def call(self, name, args):
         import collections
@@ -436,52 +466,255 @@ class Machine:
         if bad:
             raise AnalysisError(f"the store holds {bad[0]!r}, which is not a certificate entry")
         self.store.certs, self.store.queue = certs, queue
+        # state outside the explored store that the operation changed (a hit counter, a "last request" memo): `check` makes sure nothing reads it
+        for k, v in self.extras.items():
+            now = self.rec.__dict__.get(k, v)
+            if now is not v and not (type(now) is type(v) and type(v) in (list, dict, set, bytearray, int, str, bytes, bool, float, tuple, type(None)) and now == v):
+                self.extra_written.setdefault(id(self.m), (self.m, set()))[1].add(k)
         return result
 
 
 _CN_CACHE: dict = {}
 
 
+class _Opq:
+    """A value of a library outside the model (keys, hashes, serial numbers, extensions ...).  Attribute access, calls and arithmetic give
+    opaque values again; using one in a decision, a comparison or an iteration is an AnalysisError - never a guess."""
+
+    _pyint_accepts_abstract = True
+
+    def __init__(self, path):
+        object.__setattr__(self, "_path", path)
+
+    def __getattr__(self, k):
+        if k.startswith("_"):
+            raise AttributeError(k)
+        return _Opq(f"{self._path}.{k}")
+
+    def __call__(self, *a, **k):
+        return _Opq(f"{self._path}()")
+
+    def _arith(self, *a):
+        return _Opq(f"({self._path} op ..)")
+
+    def __enter__(self):  # a context manager of a library outside the model has no effect on the modelled world
+        if self._path.startswith("contextlib."):  # (contextlib's managers do have an effect on control flow: never "no effect")
+            raise AnalysisError(f"C17 certificate model: `with {self._path}` not modelled")
+        return _Opq(f"{self._path}.__enter__()")
+
+    def __exit__(self, *a):
+        return False
+
+    def _refuse(self, *a, **k):
+        raise AnalysisError(f"C17 certificate model: a decision depends on the value of `{self._path}` (library outside the model)")
+
+    def __eq__(self, o):
+        # the same attribute path from the same opaque root is the same value (attribute reads of the libraries are deterministic); the
+        # results of two calls are not comparable, nor are different paths
+        if isinstance(o, _Opq) and o._path == self._path and "(" not in self._path:
+            return True
+        return self._refuse()
+
+    def __ne__(self, o):
+        return not self.__eq__(o)
+
+    def __hash__(self):
+        return hash(self._path)
+
+    __add__ = __radd__ = __sub__ = __rsub__ = __mul__ = __rmul__ = __neg__ = _arith
+    __bool__ = __lt__ = __le__ = __gt__ = __ge__ = __iter__ = __len__ = __getitem__ = __contains__ = __int__ = __index__ = _refuse
+
+    def __repr__(self):
+        return f"<{self._path}>"
+
+
+class _NameAttr:
+    """x509.NameAttribute(oid, value)"""
+
+    _pyint_accepts_abstract = True
+
+    def __init__(self, oid, value, *a, **k):
+        self.oid, self.value = oid, value
+
+
+class _Name:
+    """x509.Name(attributes): the relative distinguished names in order"""
+
+    _pyint_accepts_abstract = True
+
+    def __init__(self, attributes=()):
+        attrs = list(attributes)
+        if not all(isinstance(x, _NameAttr) for x in attrs):
+            raise AnalysisError(f"C17 certificate model: x509.Name built from {attrs!r} (NameAttribute objects modelled)")
+        self.attrs = attrs
+
+    def get_attributes_for_oid(self, oid):
+        return [x for x in self.attrs if x.oid == oid]
+
+    def __iter__(self):
+        return iter(self.attrs)
+
+    def __len__(self):
+        return len(self.attrs)
+
+    @property
+    def rdns(self):
+        return list(self.attrs)
+
+
+class _Oids:
+    """NameOID / ExtendedKeyUsageOID ...: one token per member"""
+
+    def __init__(self, kind):
+        self._kind = kind
+
+    def __getattr__(self, k):
+        if k.startswith("_"):
+            raise AttributeError(k)
+        return (self._kind, k)
+
+
+class _Builder:
+    """x509.CertificateBuilder: immutable, every setter answers a new builder that remembers what it was asked"""
+
+    _pyint_accepts_abstract = True
+
+    def __init__(self, calls=()):
+        self._calls = tuple(calls)
+
+    def sign(self, *a, **k):
+        return _Certificate(self._calls)
+
+    def __getattr__(self, k):
+        if k.startswith("_"):
+            raise AttributeError(k)
+
+        def setter(*a, **kw):
+            return _Builder(self._calls + ((k, a, kw),))
+
+        setter._pyint_accepts_abstract = True
+        return setter
+
+
+class _Certificate:
+    """x509.Certificate as signed by the builder model: only the subject can be read back (SANs are the stub's business)"""
+
+    _pyint_accepts_abstract = True
+
+    def __init__(self, calls):
+        subj = [c for c in calls if c[0] == "subject_name"]
+        if len(subj) > 1:
+            raise AnalysisError("C17 certificate model: subject_name set twice (ValueError in cryptography)")
+        if subj and not (len(subj[0][1]) == 1 and isinstance(subj[0][1][0], _Name)):
+            raise AnalysisError(f"C17 certificate model: subject_name({subj[0][1]!r}) is not an x509.Name built by the function")
+        self.subject = subj[0][1][0] if subj else _Name()
+        self._set = {}
+        for name, a, kw in calls:  # what was handed to the builder is what the certificate carries
+            if len(a) == 1 and not kw:
+                self._set[name] = a[0]
+
+    _READ_BACK = {"issuer": "issuer_name", "serial_number": "serial_number", "not_valid_before": "not_valid_before", "not_valid_after": "not_valid_after",
+                  "not_valid_before_utc": "not_valid_before", "not_valid_after_utc": "not_valid_after"}
+
+    def public_key(self):
+        return self._set.get("public_key", _Opq("certificate.public_key()"))
+
+    def __getattr__(self, k):
+        if k.startswith("_"):
+            raise AttributeError(k)
+        if self._READ_BACK.get(k) in self._set:
+            return self._set[self._READ_BACK[k]]
+        return _Opq(f"certificate.{k}")
+
+
+class _X509Full(_X509Stub):
+    """`cryptography.x509` for interpreting dummy_cert / Cert.cn: general names, builder, names and object identifiers; the rest is opaque"""
+
+    _pyint_accepts_abstract = True
+    Certificate = _Certificate
+    Name = _Name
+    NameAttribute = _NameAttr
+    NameOID = _Oids("NameOID")
+    ExtendedKeyUsageOID = _Oids("ExtendedKeyUsageOID")
+    ExtensionOID = _Oids("ExtensionOID")
+
+    def CertificateBuilder(self):
+        return _Builder()
+
+    def __getattr__(self, name):
+        if name.startswith("_"):
+            raise AttributeError(name)
+        if name in _GN_CLASSES:
+            return _GN_CLASSES[name]
+        return _Opq(f"x509.{name}")
+
+
+class _OpenWorld(dict):
+    """pyint's table of non-repository modules: the registered models / pure stdlib modules; every other library is opaque"""
+
+    def __contains__(self, target):
+        return isinstance(target, str) and target.split(".")[0] not in ("mitmproxy", "typing", "typing_extensions")
+
+    def __getitem__(self, target):
+        parts = target.split(".")
+        for i in range(len(parts), 0, -1):
+            k = ".".join(parts[:i])
+            if dict.__contains__(self, k):
+                obj = dict.__getitem__(self, k)
+                for p in parts[i:]:
+                    try:
+                        obj = getattr(obj, p)
+                    except AttributeError:
+                        raise AnalysisError(f"C17 certificate model: `{target}` is not part of the model of `{k}`")
+                return obj
+        return _Opq(target)
+
+
+class _CertInterp(Interp):
+    def native_call(self, f, args, kwargs, where):
+        if isinstance(f, _Opq):  # (no effect on the modelled world, whatever is passed)
+            return f(*args, **kwargs)
+        return Interp.native_call(self, f, args, kwargs, where)
+
+
 def cert_cn_of(ctx, commonname):
-    """The CN the generated certificate really carries (what ``Cert.cn`` reads back), derived from dummy_cert's own AST: the value and the
-    guards of its ``NameAttribute(NameOID.COMMON_NAME, ...)`` - today: present only when ``commonname is not None and len(commonname) < 64``."""
+    """The CN the generated certificate really carries - what the repository's ``Cert.cn`` reads back from the certificate ``dummy_cert``
+    builds for this ``commonname``: both are *interpreted* against a recording model of the x509 builder (today: the name is present only
+    when ``commonname is not None and len(commonname) < 64``).  How dummy_cert assembles the subject does not matter."""
+    import collections
+    import datetime
+    import ipaddress
+    import types
+
     key = (id(ctx.model), commonname)
     if key in _CN_CACHE and _CN_CACHE[key][0] is ctx.model:
         return _CN_CACHE[key][1]
     fn = ctx.func(F, "dummy_cert")
-    sites = [c for c in walk_in_order(fn) if isinstance(c, ast.Call) and last_attr(c.func) == "NameAttribute" and c.args and attr_chain(c.args[0]).endswith("COMMON_NAME")]
-    if len(sites) != 1 or len(sites[0].args) != 2:
-        raise AnalysisError(f"dummy_cert: expected exactly one NameAttribute(NameOID.COMMON_NAME, value), found {len(sites)}")
-    site = sites[0]
-    params = [a.arg for a in fn.args.args]
-    if "commonname" not in params:
-        raise AnalysisError("dummy_cert has no `commonname` parameter any more")
-
-    def atom(node, env):
-        if isinstance(node, ast.Name):
-            if node.id == "commonname":
-                return commonname
-            defs = [n for n in walk_in_order(fn) if isinstance(n, ast.Assign) and len(n.targets) == 1 and isinstance(n.targets[0], ast.Name) and n.targets[0].id == node.id]
-            if len(defs) == 1:
-                return ceval(defs[0].value, env, atom, "dummy_cert CN guard")
-            raise AnalysisError(f"dummy_cert: CN guard reads `{node.id}` (not a single-assignment local)")
-        if isinstance(node, ast.Call) and call_name(node) == "len" and len(node.args) == 1:
-            return len(ceval(node.args[0], env, atom, "dummy_cert CN guard"))
-        raise NotAnAtom
-
-    present = True
-    child, p = site, getattr(site, "_parent", None)
-    while p is not None and p is not fn:
-        if isinstance(p, ast.If):
-            v = bool(ceval(p.test, {}, atom, "dummy_cert CN guard"))
-            if child in p.body:
-                present = present and v
-            elif child in p.orelse:
-                present = present and not v
-        elif isinstance(p, (ast.For, ast.While, ast.Try, ast.With, ast.Match)):
-            raise AnalysisError(f"dummy_cert: the CN attribute is added inside a {type(p).__name__} (not modelled)")
-        child, p = p, getattr(p, "_parent", None)
-    val = ceval(site.args[1], {}, atom, "dummy_cert CN value") if present else None
+    x509 = _X509Full()
+    log = _NullLog()
+    it = _CertInterp(ctx.model, max_depth=16, max_steps=200000)
+    it.trusted = _OpenWorld({"cryptography.x509": x509, "cryptography": types.SimpleNamespace(x509=x509, hazmat=_Opq("cryptography.hazmat")), "logging": log, "warnings": log,
+                             "collections": collections, "ipaddress": ipaddress, "datetime": datetime, "itertools": __import__("itertools"),
+                             "functools": __import__("functools"), "operator": __import__("operator")})
+    values = {"privkey": _Opq("privkey"), "cacert": _Opq("cacert"), "commonname": commonname, "sans": Names([DNS("cn-probe.example")])}
+    a = fn.args
+    params = [p.arg for p in a.posonlyargs + a.args + a.kwonlyargs]
+    n_required = len(a.posonlyargs + a.args) - len(a.defaults)
+    required = set(params[:n_required]) | {p.arg for p, d in zip(a.kwonlyargs, a.kw_defaults) if d is None}
+    if a.posonlyargs or not required <= set(values) or "commonname" not in params:
+        raise AnalysisError(f"dummy_cert: signature {params} not modelled (required parameters the C17 harness does not know / no `commonname`)")
+    try:
+        cert = it.call(F, "dummy_cert", **{p: v for p, v in values.items() if p in params})
+    except Raised as r:
+        raise AnalysisError(f"dummy_cert raises {r.name} for commonname={commonname!r} in the interpretation (not modelled)")
+    if not (isinstance(cert, Rec) and cert.isa("Cert")):
+        raise AnalysisError(f"dummy_cert returns {cert!r}, not a certs.Cert (not modelled)")
+    try:
+        val = it.getattr(cert, "cn", None, 0)
+    except Raised as r:
+        raise AnalysisError(f"Cert.cn raises {r.name} on the certificate dummy_cert builds (not modelled)")
+    if not (val is None or isinstance(val, str)):
+        raise AnalysisError(f"Cert.cn of the generated certificate is {val!r} for commonname={commonname!r} (not modelled)")
     _CN_CACHE[key] = (ctx.model, val)
     return val
 
@@ -512,7 +745,7 @@ def registration_keys(entry, names):
 # ---- universe -------------------------------------------------------------------------------------
 
 REQUESTS = [
-    ("a.b.c", (DNS("a.b.c"),)),
+    ("x.b.c", (DNS("x.b.c"),)),  # (same CN as the next request, other SANs: a different certificate)
     ("x.b.c", (DNS("x.b.c"), DNS("b.c"))),
     ("1.2.3.4", (IP("1.2.3.4"),)),
     (None, (DNS("q.r"),)),
@@ -787,12 +1020,35 @@ def _writers(ctx):
     return vacuous
 
 
+def _extra_state_is_write_only(ctx):
+    """Instance state besides certs / expire_queue that the explored operations change (statistics counters ...) is not part of the explored
+    state (every transition starts from what __init__ leaves): fine as long as the operations never *read* it except to update it or to
+    log it - otherwise their behaviour could depend on history the exploration does not see -> AnalysisError."""
+    hit = Machine.extra_written.get(id(ctx.model))
+    names = sorted(hit[1]) if hit is not None and hit[0] is ctx.model else []
+    if not names:
+        return
+    methods = _methods(ctx)
+    for fname in sorted(_reach(ctx)):
+        for n in ast.walk(methods[fname]):
+            if isinstance(n, ast.Attribute) and isinstance(n.ctx, ast.Load) and n.attr in names and attr_chain(n.value) in ("self", "cls"):
+                p, harmless = getattr(n, "_parent", None), False
+                while p is not None and not isinstance(p, ast.stmt):
+                    if isinstance(p, ast.Call) and attr_chain(p.func).split(".")[0] in ("logger", "logging", "log", "warnings"):
+                        harmless = True
+                    p = getattr(p, "_parent", None)
+                if isinstance(p, ast.Expr) and harmless:
+                    continue
+                raise AnalysisError(f"CertStore.{fname} reads self.{n.attr}, state its operations change but the exploration does not track (not modelled)")
+    ctx.note(f"untracked write-only state of CertStore: {names}")
+
+
 def check(ctx):
     ctx.rule("R17.1", "generated entries <= capacity after every call (certs and expire_queue); customs never dropped; only the modelled methods write the store")
     ctx.rule("R17.2", "returned entry = matching custom entry (custom wins) or generated for exactly the requested names; immediate repeat is a cache hit")
     ctx.rule("R17.3", "asterisk_forms = [name, *.suffixes...], never '*', non-DNS names verbatim")
     ctx.trust("cryptography x509.GeneralNames: iterable, hashable, equal by content (modelled as a tuple of name records)")
-    ctx.assume("dummy_cert / CertStoreEntry / _fix_legacy_sans are stubs recording their arguments (their own obligations: C16)")
+    ctx.assume("dummy_cert is a stub recording its arguments (its own obligations: C16); the subject CN of a generated certificate is read back by interpreting dummy_cert + Cert.cn against a model of the x509 builder")
     vacuous = _writers(ctx)
     _r17_3(ctx)
     quick = ctx.tier != "thorough"
@@ -828,6 +1084,7 @@ def check(ctx):
     report("R17.2", "cache", "immediate repeat is not a cache hit", "the same request is answered with a different certificate", "immediate repeat returns the same entry")
     if vacuous and not ctx.findings:
         raise AnalysisError(vacuous[0])
+    _extra_state_is_write_only(ctx)
     ctx.expect_instances("R17.1", 8)
     ctx.expect_instances("R17.2", 2)
     ctx.expect_instances("R17.3", 1)
